@@ -35,7 +35,7 @@ def short_callee(t):
     return "::".join(c.split("::")[-2:])
 
 
-INLINE_STOP = re.compile(r"SymbolManager::<T>::(get_parent|get_children|get_children_mut|traverse|get|get_mut|try_get_by_name|get_by_name|declare)$|OverlapChecker::|FileServer|file_navigation::|BigInt::|DefList::|ItemRef::|SymbolContext::new_global$|Report::|Walker::")
+INLINE_STOP = re.compile(r"SymbolManager::<T>::(get_parent|get_children|get_children_mut|traverse|get|get_mut|try_get_by_name|get_by_name|declare)$|OverlapChecker::|FileServer|file_navigation::|BigInt::|DefList::|ItemRef::|SymbolContext::new_global$|Report::|Walker::|EvalContext::|eval_asm::|instruction::|matcher::")
 
 
 def _inline_call(f, t, d):
